@@ -371,6 +371,9 @@ class HierDictDocument(DictDocument):
                 if subinst is None:
                     subinst = []
 
+                if not isinstance(v, AbcIterable):
+                    raise ValidationError([k, v])
+
                 for a in v:
                     subinst.append(
                             self._from_dict_value(ctx, k, member, a, validator))
